@@ -76,8 +76,9 @@ class PSNode(Node):
           - sample a service time and this is the time left
           - update all customers' service times
         """
-        if self.number_of_individuals >= self.ps_capacity:
-            ind = self.all_individuals[self.ps_capacity - 1]
+        waiting = [i for i in self.all_individuals if not i.with_server]
+        if self.number_of_individuals >= self.ps_capacity and len(waiting) > 0:
+            ind = min(waiting, key=lambda i: i.arrival_date)
             ind.service_start_date = self.now
             ind.date_last_update = self.now
             ind.service_time = self.get_service_time(ind)
